@@ -16,6 +16,7 @@ const (
 	verifSendValidated // a validated message is about to be handed to the event loop
 	verifSendBatch     // a message batch is about to be handed to the event loop
 	verifLoopEvent     // the event loop has received a peer / stream / wire event and not yet handled it
+	verifValidateTake  // a validation worker is about to take the next request from the validation queue
 )
 
 func verifYield(int) {}
@@ -27,3 +28,5 @@ func verifYieldQueue(*rpcQueue, int) {}
 func verifYieldMsg(*Message, int) {}
 
 func verifYieldBatch(*MessageBatch, int) {}
+
+func verifYieldVal(*validation, int) {}
